@@ -290,7 +290,7 @@ RefStep(kind, p, s, in) ==
             obv == IF c > s.pc THEN s.obv + in.v ELSE IF c < s.pc THEN s.obv - in.v ELSE s.obv
             vm == IMax(s.vmax, Abs(obv))
         IN O([obv |-> obv, pc |-> c, vmax |-> vm], <<F("out", RI(obv), "vol", "tau")>>,
-             NoDen, "ratio", FALSE, RZero, RI(vm))
+             NoDen, "ratio", in.v = 0 \/ c = s.pc, RZero, RI(vm))     \* degenerate: no volume, or no price change
 
 ---------------------------------------------------------------------------
 (* C15: every composite a second time, as the composition of the reference semantics of its PUBLIC *)
